@@ -205,7 +205,7 @@ def _holds_for_monitor(leaf, asg):
 
 # ------------------------------------------------------------------------------------------------ random generation
 DEFAULT_OPTS = dict(neg=True, preds=True, member=True, calls=True, index=True, spell=True, objcmp=True, strings=True,
-                    lit_lo=0, lit_hi=4, p_not=0.18, p_leaf=0.25, nary=True)
+                    lit_lo=0, lit_hi=4, p_not=0.18, p_leaf=0.25, nary=True, falsy=False)
 
 
 def _num_paths(kind):
@@ -236,7 +236,30 @@ def _p_path(kind):
     return [] if kind == "P" else [["a", "p"]]
 
 
+def gen_falsy_leaf(rng, kinds):
+    """leaves that put falsy values in VALUE position (C19) and falsy values in CONDITION position"""
+    vi = rng.randrange(len(kinds))
+    pp = _p_path(kinds[vi])
+    flag = ["v", vi, pp + [["a", "flag"]]]
+    k = rng.random()
+    if k < 0.25:
+        return ["cmp", rng.choice(["==", "!="]), flag, ["lit", rng.choice([0, None, "", False, 1, "z"])]]
+    if k < 0.4:
+        return ["in", flag, ["tup", rng.choice([[0, None], ["", 1], [None, "z"], [False]])]]
+    if k < 0.55:
+        return ["cmp", rng.choice(["==", "!="]), ["v", vi, pp + [["a", "s"]]], ["lit", rng.choice(["", "x"])]]
+    if k < 0.65:
+        return ["cmp", rng.choice(["==", "!="]), ["v", vi, pp + [["a", "t"]]], ["tup", []]]
+    if k < 0.8:
+        return ["truth", rng.choice([flag, ["v", vi, pp + [["a", "t"]]], ["v", vi, pp + [["a", "s"]]], ["v", vi, [["a", "a"]]]])]
+    if k < 0.9:
+        return ["cmp", rng.choice(list(OPS)), ["v", vi, [["a", rng.choice("ab")]]], ["lit", 0]]
+    return ["cmp", "==", ["v", vi, pp + [["a", "d"], ["i", "k"]]], ["lit", 0]]
+
+
 def gen_leaf(rng, kinds, o):
+    if o.get("falsy") and rng.random() < 0.45:
+        return gen_falsy_leaf(rng, kinds)
     k = rng.random()
     if k < 0.45:
         l, r = gen_num(rng, kinds, o), gen_num(rng, kinds, o)
